@@ -12,6 +12,7 @@ def sh(cmd, **kw):
     return subprocess.run(cmd, shell=True, stdout=subprocess.PIPE, stderr=subprocess.STDOUT, text=True, **kw)
 
 
+VERIF_DIR = os.path.dirname(os.path.dirname(os.path.abspath(__file__)))
 REPO = os.environ.get("SWEEP_REPO", "/repo")  # a scratch worktree may be used instead of /repo
 
 
@@ -28,18 +29,18 @@ def main():
         r = sh("git -C %s apply %s/patch.diff" % (REPO, d))
         if r.returncode != 0:
             rows.append((d, "-", "PATCH DOES NOT APPLY: " + r.stdout.strip()[:200]))
+            print("%-40s %-4s %s" % rows[-1], flush=True)
             continue
         try:
             for p in props:
                 t0 = time.time()
-                c = sh("cd /verif && ASYNQ_VERIF_REPO=%s ./check %s --no-evidence %s" % (REPO, p, os.environ.get("SWEEP_ARGS", "")))
+                c = sh("cd %s && ASYNQ_VERIF_REPO=%s ./check %s --no-evidence %s" % (VERIF_DIR, REPO, p, os.environ.get("SWEEP_ARGS", "")))
                 line = [l for l in c.stdout.splitlines() if l.startswith("violation:")]
                 rows.append((os.path.basename(os.path.dirname(d)) + "/" + os.path.basename(d) if "/out/" in d else os.path.basename(d), p,
                              "exit=%d %.0fs %s" % (c.returncode, time.time() - t0, line[0][:230] if line else c.stdout.strip().splitlines()[-1][:200])))
+                print("%-40s %-4s %s" % rows[-1], flush=True)
         finally:
             sh("git -C %s checkout -- ." % REPO)
-    for r in rows:
-        print("%-40s %-4s %s" % r)
 
 
 main()
